@@ -294,6 +294,14 @@ def c20_cli(args):
             if out2 != out:
                 return 'output is not reproduced byte for byte for %r' % (argv,)
         if not on:
+            # the clause speaks of well-formed input: every variable defined once, no duplicate triples,
+            # roles in canonical inversion form under the model in use (':consist-of-of' is not, under a
+            # model that does not define ':consist-of')
+            from . import gens as _gens
+            for t in (texts[:1] if args['via'] == 'stdin' else texts):
+                for tr in penman.iterparse(t):
+                    if not _gens.wf_tree(tr.node, model, noop=(args.get('model') == 'noop')):
+                        return None
             gs_in = [gsig(g) for t in (texts[:1] if args['via'] == 'stdin' else texts)
                      for g in penman.iterdecode(t, model=model)]
             gs_out = [gsig(g) for g in penman.iterdecode(out, model=model)]
